@@ -126,6 +126,9 @@ type declSpec struct {
 	// DestShare: declarations of one case naming the same key are bound to the very same destination: one *bool for
 	// the ...Ptr forms of kind bool (implies ptr), one flag.Value object for kind custom
 	DestShare string `json:"destshare"`
+	// Late (a declaration of the root, in a case with "before"): the declaration is made on the application object only
+	// after its first run
+	Late bool `json:"late"`
 	// Conv: declare through the positional convenience API (cmd.BoolOpt(name, value, desc), ...); only
 	// honoured when the declaration has no EnvVar, HideValue or SetByUser, which that API cannot express
 	Conv bool `json:"conv"`
@@ -1038,6 +1041,9 @@ func (r *runCtx) hook(h *hookSpec, tag, path string, isAction bool, cmd *cli.Cmd
 // configure performs, on cmd, everything that follows the policy/version step
 func (r *runCtx) configure(cmd *cli.Cmd, c *cmdSpec, path string) {
 	for i := range c.Decls {
+		if c.Decls[i].Late && r.hasBefore && cmd == r.app.Cmd {
+			continue // declared after the first run (declareLate)
+		}
 		rec := declare(cmd, &c.Decls[i], path, r.shared)
 		r.vars = append(r.vars, rec)
 	}
@@ -1157,6 +1163,11 @@ func runCase(req *request, stderr *bytes.Buffer) *runOut {
 				_ = app.Run(append([]string{argv0}, strs(req.Before.Argv)...))
 			}()
 			app.Spec = final
+			for i := range root.Decls {
+				if root.Decls[i].Late {
+					r.vars = append(r.vars, declare(app.Cmd, &root.Decls[i], rootName, r.shared))
+				}
+			}
 			r.declareSubs(app.Cmd, root, rootName, true)
 			r.trace = []B{}
 			r.values = nil
